@@ -96,7 +96,7 @@ def gen_record(rng, tag, cls=None, status=None, profile=None, tame=False):
     digits = lambda n: "".join(rng.choice("0123456789") for _ in range(n))
     uuid = hexrun(8) + rng.choice("-_") + hexrun(4) + rng.choice("-_") + hexrun(4) + rng.choice("-_") + hexrun(4) + rng.choice("-_") + hexrun(12)
     name = rng.choice(NAME_FAMILIES).format(user=user, pid=rng.randint(2, 99999), tid=rng.randint(2, 99999), uid=rng.choice([1000, 1001, 0, 120]), tag=ts_,
-                                             arch=rng.choice(["amd64", "x86_64", "i386", "i686", "arm64", "aarch64", "riscv64", "armhf"]),
+                                             arch=rng.choice(["amd64", "x86_64", "i386", "i686", "arm64", "aarch64", "riscv64", "armhf", "i586", "i486", "x86_64_v3", "amd64v2"]),
                                              uuid=uuid, hex64=hexrun(64), hex38=hexrun(38), hex32=hexrun(32), hex16=hexrun(16),
                                              int64=digits(64), int32=digits(32), int16=digits(16), int10=digits(10), int8=digits(8), int6=digits(6),
                                              int13=digits(13), int11=digits(11), int15=digits(15), int27=digits(27), hex20=hexrun(20))
